@@ -23,11 +23,22 @@ from __future__ import annotations
 import itertools
 import random
 
-STRS = ["", "a", "x y", "123", "-7", "0", "true", "1", "null", "héllo ✓", "file:///tmp/a", "text", "2.0", "A" * 40]
-INTS = [0, 1, -1, 42, 100, 2**31, 2**53 + 1, -(2**63), 10**20]
-FLOATS = [0.5, 0.25, 1.5, -2.75, 1e-3, 3.0, 0, 7]
-EXTRA_NAMES = ["x", "extra", "note", "_custom", "X-Y", "data2", "annotations2", "kind", "self"]
-ANY_KEYS = ["a", "b", "type", "text", "meta", "_meta", "schema", "schema_", "progressToken", "n"]
+STRS = [
+    "", "a", "x y", "123", "-7", "0", "true", "false", "1", "null", "héllo ✓", "file:///tmp/a", "text", "2.0", "A" * 40,
+    # every declared str member must come back EXACTLY: leading / trailing whitespace, newlines, tabs
+    # (tool output ending in a newline, indented code), look-alikes of other JSON types, edge characters
+    " lead", "trail ", " both ", "line\n", "\n", "\tdef f():\n    return 1\n", "  ", " 7 ", "7\n", "\r\n",
+    "\u00a0nbsp\u00a0", "x\u2028", "\u2028", "\u3000wide", "\x0bvt\x0c",
+    "\U0001F600 non-BMP \U0001D518", "1.0", "1e3", "-0", "None", "True", "NaN", "[]", "{}", "\"q\"", "\\",
+    "L" * 3000,
+]
+# strings whose ends (or whole content) a "tolerant" validator would alter
+EDGE_STRS = [" lead", "trail ", "line\n", "\tindented\n    code\n", " 7 ", "\u00a0nbsp\u00a0", "x\u2028", "", "  ", "\r\n",
+             "1", "true", "null", "\U0001F600", "\u3000wide"]
+INTS = [0, 1, 0, 1, -1, 2, 42, 100, 2**31, 2**53 + 1, -(2**63), 10**20]
+FLOATS = [0.5, 0.25, 1.5, -2.75, 1e-3, 3.0, 1.0, 0.0, 0, 1, 7, 1e100, 2.5e-7]
+EXTRA_NAMES = ["x", "extra", "note", "_custom", "X-Y", "data2", "annotations2", "kind", "self", " pad ", "tab\t", "", "\U0001F600"]
+ANY_KEYS = ["a", "b", "type", "text", "meta", "_meta", "schema", "schema_", "progressToken", "n", " k ", "", "nl\n"]
 
 
 def any_value(rng: random.Random, depth=0, allow_null=True):
@@ -144,7 +155,7 @@ class Gen:
         name = f["name"]
         # valid shapes demanded by the hook-enforced invariants
         if cid == "Root" and name == "uri":
-            return "file://" + rng.choice(["/", "/tmp/a", "/home/u/pröj", "/x%20y", ""])
+            return "file://" + rng.choice(["/", "/tmp/a", "/home/u/pröj", "/x%20y", "", "/with space ", "/trail\n", "/\U0001F600"])
         if cid == "JSONRPCError" and name == "error" or (cid == "JSONRPCMessage" and name == "error"):
             e = {"code": rng.choice([-32700, -32600, -32601, -32603, 1, 0]), "message": rng.choice(STRS)}
             if rng.random() < 0.4:
@@ -244,6 +255,28 @@ class Gen:
             if r:
                 out.append((f, r))
         return out
+
+    def with_str(self, t, sval):
+        """the smallest value of type `t` that carries the string `sval` at a `str` position reachable
+        without entering another model class (None when `t` has no such position)"""
+        k = t["k"]
+        if k == "str":
+            return sval
+        if k == "opt":
+            return self.with_str(t["t"], sval)
+        if k == "list":
+            v = self.with_str(t["t"], sval)
+            return None if v is None else [v, v]
+        if k == "dict":
+            v = self.with_str(t["t"], sval)
+            return None if v is None else {"k": v, " k ": v}
+        if k == "union":
+            for m in t["ts"]:
+                if m["k"] != "lit":
+                    v = self.with_str(m, sval)
+                    if v is not None:
+                        return v
+        return None
 
     def wrap(self, t, leaf):
         """the smallest value of type `t` that contains `leaf` at its union position"""
